@@ -148,6 +148,55 @@ def body_pin(env):
             env.holds('%s: stored radial profile is that of a pin and plane where the maximum is attained' % k, env.lor(*conds))
 
 
+def body_store(env):
+    """Through the public path (generated input -> Reactor -> a few real steps): the assembly keeps one peak slot per duct of
+    its pin bundle whatever the order of its axial regions, and after the steps every slot holds the maximum of the mid-wall
+    field of its own duct over the planes swept (unrodded planes count for the outer duct).  Concrete check of the set-up
+    glue (Assembly.__init__) and of the update on a real assembly; no symbolic dimension."""
+    import os
+    import shutil
+    import tempfile
+    from symx import geninp, npshim
+    import dassh
+    ftf, axial = env.params['ftf'], env.params['axial']
+    d = tempfile.mkdtemp(prefix='dassh-verif-c15.')
+    try:
+        a = geninp.default_asm(2, ftf=ftf, axial=axial or None, P=0.0062, D=0.0050, Dw=0.0008,
+                               extra=['bypass_gap_flow_fraction = 0.05'] if len(ftf) > 2 else [])
+        inp = geninp.write_case(d, {'a': a}, [('a', 1, 1, 'FLOWRATE=0.4')], gap_model='none', core_len=0.06)
+        with npshim.unpatched():
+            r = dassh.Reactor(dassh.DASSH_Input(inp), path=os.path.join(d, 'out'), write_output=False, axial_mesh_size=0.005)
+            asm = r.assemblies[0]
+            nduct = len(ftf) // 2
+            env.holds('one peak slot per duct of the pin bundle', len(asm._peak['duct']) == nduct, key='wrong_number_of_duct_peak_slots')
+            seen = [-1.0] * nduct
+            real_update = asm._update_peak_duct_temps
+
+            def spy():
+                # the field the real update looks at (the region active during this step, before any region change)
+                mw = np.asarray(asm.active_region.temp['duct_mw'], dtype=float)
+                for k in range(mw.shape[0]):
+                    slot = nduct - mw.shape[0] + k
+                    seen[slot] = max(seen[slot], float(np.max(mw[k])))
+                return real_update()
+            asm._update_peak_duct_temps = spy
+            r._data_setup()
+            r._data_open()
+            r.axial_step0()
+            for i in range(1, len(r.z)):
+                r.axial_step(r.z[i], r.dz[i - 1], i, False)
+            try:
+                r._data_close()
+            except (AttributeError, KeyError):
+                pass
+    finally:
+        shutil.rmtree(d, ignore_errors=True)
+    if len(asm._peak['duct']) == nduct:
+        for k in range(nduct):
+            env.holds('duct %d: reported peak = maximum of its mid-wall field over the planes swept' % k,
+                      abs(float(asm._peak['duct'][k][0]) - seen[k]) <= 1e-9 * abs(seen[k]), key='duct_peak_not_the_maximum')
+
+
 def instances(tier):
     inst = []
     for n, steps in ([(2, 1), (3, 1), (2, 2), (3, 2)] if tier == 'quick' else [(2, 1), (3, 1), (4, 1), (2, 2), (3, 2), (4, 2), (3, 3), (5, 1)]):
@@ -162,6 +211,12 @@ def instances(tier):
         for focus in KEYS:
             inst.append(dict(label='pin[%s,pins=%d,steps=%d]' % (focus, npin, steps), body=body_pin,
                              params={'npin': npin, 'steps': steps, 'focus': focus}, max_paths=100000, max_depth=400))
+    dd = (0.019, 0.021, 0.026, 0.028)
+    for nm, ftf, axial in (('single duct, rods only', (0.026, 0.028), None), ('double duct, rods only', dd, None),
+                           ('double duct, unrodded region below the rods', dd, [('lower', 0.0, 0.02, 0.3)]),
+                           ('double duct, unrodded regions below and above', dd, [('lower', 0.0, 0.02, 0.3), ('upper', 0.04, 0.06, 0.3)]),
+                           ('single duct, unrodded region below the rods', (0.026, 0.028), [('lower', 0.0, 0.02, 0.3)])):
+        inst.append(dict(label='peak-store[%s]' % nm, body=body_store, params={'ftf': ftf, 'axial': axial}, check_vacuity=False))
     return inst
 
 
